@@ -85,7 +85,10 @@ def handleLoadRaw (c : Case) : Verdict :=
         else if rest.length != 1 then .differ "reads" s!"model-consumed={reps.size + 1 - rest.length} impl={reps.size}"
         else
           let rl := match m with | .ok _ => "ok" | .err => "err" | .invalidData _ => "invalidData" | .stuck => "stuck"
-          .agree (reps.size > 1 || rl != "ok") (["loadraw", "t-" ++ rq.getD 1 "", "res-" ++ rl, s!"reads{reps.size}"] ++ kindLabels reps)
+          let cl := match c.find "cache" with
+            | some cr => [s!"cached-{cr.getD 1 ""}", s!"cached-load{cr.getD 3 ""}", s!"cached-fault-{cr.getD 2 ""}"]
+            | none => []
+          .agree (reps.size > 1 || rl != "ok") (["loadraw", "t-" ++ rq.getD 1 "", "res-" ++ rl, s!"reads{reps.size}"] ++ cl ++ kindLabels reps)
   | _, _ => .differ "protocol" "missing-records"
 
 def unpName : UnpOut → String
